@@ -914,19 +914,7 @@ mut('c18-unicode-word-class', ['C18'], M,
 # (benign/*.diff, each with a one-line description in the .txt next to it; the
 # agents saw only the txdbus source, ran the suite on each, and many also ran a
 # differential harness).  Every check must stay silent on every one of them.
-_FILE_PROPS = {
-    'marshal.py': ['C01', 'C02', 'C03', 'C05', 'C18', 'C19', 'C20'],
-    'message.py': ['C03', 'C08', 'C10', 'C11', 'C14', 'C18', 'C20'],
-    'protocol.py': ['C04', 'C06', 'C07', 'C20', 'C03'],
-    'authentication.py': ['C06', 'C07'],
-    'client.py': ['C08', 'C09', 'C11', 'C12', 'C13'],
-    'router.py': ['C12', 'C14'],
-    'endpoints.py': ['C09'],
-    'objects.py': ['C09', 'C10', 'C11', 'C12', 'C16', 'C17'],
-    'bus.py': ['C06', 'C12', 'C13', 'C14', 'C11'],
-    'introspection.py': ['C11', 'C15', 'C16'],
-    'interface.py': ['C11', 'C15', 'C19', 'C10', 'C17'],
-}
+from .scope import FILE_PROPS as _FILE_PROPS
 
 
 def _load_benign_patches():
@@ -1067,3 +1055,7 @@ def _load_seeds():
 
 
 _load_seeds()
+mut('c03-undefined-name-in-constructor', ['C03', 'C08', 'C10', 'C14', 'C18', 'C20'], MS,
+    [("        self.path = path\n        self.member = member\n        self.interface = interface\n        self.destination = destination\n        self.signature = signature\n        self.body = body\n\n        self._marshal()\n\n\n_mtype",
+      "        self.path = path\n        self.member = member\n        self.interface = interface\n        self.destination = destination\n        self.signature = signature\n        self.body = body\n        if sender is not None:\n            self.sender = sender\n\n        self._marshal()\n\n\n_mtype")], ['C03.D0'],
+    note='a mis-merged hunk: SignalMessage.__init__ has no parameter `sender`')
